@@ -2,7 +2,7 @@
    Model: Model/Directive.v (RuntimeState, Directive.effects) and the skip test of Model/RunLoop.v.
    Spec: Spec/Scoping.v (abstract machine over SKIP and the set of unmet REQUIRES). *)
 From XD Require Import Model.Base Model.Parser Model.Checker Model.Text Model.Directive Model.RunLoop
-  Spec.Scoping Proofs.DirectiveProofs Proofs.RunDecide Model.DirInline Proofs.FormatProofs Proofs.FormatTrailing Proofs.DirInlineProofs.
+  Spec.Scoping Proofs.DirectiveProofs Proofs.RunDecide Model.DirInline Proofs.FormatProofs Proofs.FormatTrailing Proofs.DirInlineProofs Model.CliOptions Proofs.CliOptionsProofs.
 
 (* which statements run, for EVERY sequence of directive lists (block or inline; SKIP, REQUIRES met/unmet
    with any arguments, any other flag), from every well-formed state and for every REQUIRES oracle:
@@ -103,3 +103,34 @@ Theorem C04_block_with_spacing_refuted_before_F31 :
   Clean demo_directive_comment /\ comment_line demo_directive_comment = true.
 Proof. exact block_with_spacing_refuted_before_F31. Qed.
 Print Assumptions C04_block_with_spacing_refuted_before_F31.
+
+(* the default options as the command line gives them (Model/CliOptions.v: DoctestConfig._populate_from_cli on the parsed pieces of
+   `--options=a,b,c`): the value of a name is the sign of its last mention ... *)
+Theorem C04_cli_defaults_last_mention : forall opts k,
+  dget k (populate_from_cli opts) = match last_mention k opts with Some b => Some (VBool b) | None => None end.
+Proof. exact populate_get. Qed.
+Print Assumptions C04_cli_defaults_last_mention.
+
+(* ... so when no name is given twice EVERY option of the list is a default option of the run, with its own sign, and nothing else is;
+   the result is a dict of boolean defaults, which C04_defaults_as_leading_block turns into "a leading block directive" *)
+Theorem C04_cli_defaults_hold_every_option : forall opts, NoDup (map fst opts) ->
+  forall k b, In (k, b) opts -> dget k (populate_from_cli opts) = Some (VBool b).
+Proof. exact populate_holds_every_option. Qed.
+Print Assumptions C04_cli_defaults_hold_every_option.
+
+Theorem C04_cli_defaults_hold_nothing_else : forall opts k,
+  (forall b, ~ In (k, b) opts) -> dget k (populate_from_cli opts) = None.
+Proof. exact populate_holds_nothing_else. Qed.
+Print Assumptions C04_cli_defaults_hold_nothing_else.
+
+Theorem C04_cli_defaults_are_bool_defaults : forall opts,
+  (forall b, ~ In (K_REQUIRES, b) opts) -> BoolDefaults (populate_from_cli opts).
+Proof. exact populate_bool_defaults. Qed.
+Print Assumptions C04_cli_defaults_are_bool_defaults.
+
+Theorem C04_cli_defaults_example :
+  let opts := [(K_SKIP, true); (K_IGNORE_WHITESPACE, true); (K_ELLIPSIS, false)] in
+  NoDup (map fst opts) /\ (forall b, ~ In (K_REQUIRES, b) opts) /\
+  populate_from_cli opts = [(K_SKIP, VBool true); (K_IGNORE_WHITESPACE, VBool true); (K_ELLIPSIS, VBool false)].
+Proof. exact populate_example. Qed.
+Print Assumptions C04_cli_defaults_example.
